@@ -16,6 +16,8 @@ pub enum Ev {
     OpenRst,
     OpenEos,
     BigHeaders(usize),
+    /// the same oversized list with its block cut into k pieces (HEADERS + CONTINUATIONs), the cuts falling inside fields
+    BigHeadersSplit(usize, usize),
     HeadersNoEnd,
     ContinuationNoEnd,
     Data(usize),
@@ -68,7 +70,7 @@ pub struct HostileModel {
 
 impl HostileModel {
     pub fn new(name: &'static str, quick: bool, expire_now: bool) -> HostileModel {
-        let mut ev = vec![Ev::Open, Ev::OpenRst, Ev::BigHeaders(400), Ev::HeadersNoEnd, Ev::ContinuationNoEnd, Ev::Data(1), Ev::Data(0), Ev::DataOnOldStream, Ev::RstOld, Ev::WuStreamZero, Ev::Ping, Ev::AcceptToggle, Ev::DropAll, Ev::Drive, Ev::DriveBlocked];
+        let mut ev = vec![Ev::Open, Ev::OpenRst, Ev::BigHeaders(400), Ev::BigHeadersSplit(5, 61), Ev::HeadersNoEnd, Ev::ContinuationNoEnd, Ev::Data(1), Ev::Data(0), Ev::DataOnOldStream, Ev::RstOld, Ev::WuStreamZero, Ev::Ping, Ev::AcceptToggle, Ev::DropAll, Ev::Drive, Ev::DriveBlocked];
         if !quick {
             ev.extend([Ev::OpenEos, Ev::BigHeaders(1400), Ev::Data(40), Ev::DataPadded, Ev::WuFlood, Ev::PriorityFlood, Ev::Settings, Ev::ReadAll, Ev::RespondAll]);
         }
@@ -125,6 +127,27 @@ pub fn apply_peer(t: &mut T2, w: &mut World, e: &Ev) {
             let mut b = req.clone();
             b.extend(T2::block(&[("x-big", &"b".repeat(*n))]));
             t.peer_send(&wf::headers(sid, &b, false, true));
+        }
+        Ev::BigHeadersSplit(n, k) => {
+            let sid = w.next_sid;
+            w.next_sid += 2;
+            let mut b = req.clone();
+            // n fields of 79 octets of list size each (name 7 + value 40 + 32) cut every k octets: the cuts fall inside fields
+            // and every fragment completes one field, so that per fragment the list stays just below the limit (176 octets of
+            // pseudo-header fields + 79 = 255) while as a whole it is far above; few enough fragments to stay below the
+            // CONTINUATION flood limit
+            for i in 0..*n {
+                b.extend(T2::block(&[(&format!("x-f-{:03}", i), &"v".repeat(40))]));
+            }
+            let chunks: Vec<&[u8]> = b.chunks((*k).max(1)).collect();
+            for (i, c) in chunks.iter().enumerate() {
+                let last = i + 1 == chunks.len();
+                if i == 0 {
+                    t.peer_send(&wf::headers(sid, c, false, last));
+                } else {
+                    t.peer_send(&wf::continuation(sid, c, last));
+                }
+            }
         }
         Ev::HeadersNoEnd => {
             let sid = w.next_sid;
@@ -276,6 +299,13 @@ impl Model for HostileModel {
     }
     fn invariant(&self, t: &mut T2, w: &mut World) -> V3 {
         let mut v = vec![];
+        // a request whose header list exceeds the advertised SETTINGS_MAX_HEADER_LIST_SIZE is refused, not accommodated
+        for a in &t.accepted {
+            let size: usize = a.req_head.fields.iter().map(|(n, val)| n.len() + val.len() + 32).sum::<usize>() + 4 * 32 + ":method".len() + a.req_head.method.len() + ":scheme:authority:path".len() - 2 + a.req_head.uri.len();
+            if size > LIMITS.header_list as usize + 64 {
+                v.push(("C18.oversized-headers-accepted".to_string(), "accept".into(), format!("stream {} was handed to the application with a header list of about {} octets; the advertised limit is {}", a.sid, size, LIMITS.header_list)));
+            }
+        }
         if let Conn::Server(c) = &t.conn {
             let s = c.verif_snapshot();
             let (bs, br, bq) = bounds(t);
@@ -329,6 +359,8 @@ fn directed_runs(quick: bool, vios: &mut VioSet) -> Vec<serde_json::Value> {
         ("open-beyond-limit-writes-blocked", vec![Ev::Open], true, true),
         ("oversized-headers", vec![Ev::BigHeaders(400)], false, true),
         ("oversized-headers-writes-blocked", vec![Ev::BigHeaders(1400)], true, true),
+        ("oversized-headers-split-inside-fields", vec![Ev::BigHeadersSplit(5, 61)], false, true),
+        ("oversized-headers-split-two-fields-per-piece", vec![Ev::BigHeadersSplit(6, 101)], false, true),
         ("continuation-flood", vec![Ev::ContinuationNoEnd], false, true),
         ("tiny-data", vec![Ev::Data(1)], false, true),
         ("empty-data", vec![Ev::Data(0)], false, true),
@@ -391,6 +423,9 @@ fn directed_runs(quick: bool, vios: &mut VioSet) -> Vec<serde_json::Value> {
                 apply_peer(&mut t, &mut w, e);
             }
             t.drive(100);
+            if name.contains("oversized") && !t.accepted.is_empty() && r < 3 {
+                vios.add(Violation { rule: "C18.oversized-headers-accepted".into(), signature: name.to_string(), what: format!("attack loop '{}': a request with a header list far above the advertised limit of {} was handed to the application", name, LIMITS.header_list), replay: json!({"harness": "c18.directed", "loop": name}) });
+            }
             if !name.contains("data") {
                 // the application lets go of every request it is handed (what it keeps is its own business, not the peer's doing)
                 let acc = std::mem::take(&mut t.accepted);
@@ -478,7 +513,7 @@ pub fn run(ctx: &Ctx) -> Outcome {
     out.set("exhaustive", json!(false));
     out.set("limits", json!({"max_concurrent_streams": LIMITS.max_streams, "reset_stream_max": LIMITS.reset_max, "pending_accept_reset_max": LIMITS.pending_accept_reset_max, "local_error_reset_max": LIMITS.local_error_reset_max, "max_header_list_size": LIMITS.header_list, "initial_window_size": LIMITS.window, "data_frame_budget": LIMITS.data_budget}));
     out.set("alphabet", json!(m2.events.iter().map(|e| format!("{:?}", e)).collect::<Vec<_>>()));
-    out.set("rule", json!("X2 on T2 (real server with tiny limits, hostile scripted peer): open, open+RST_STREAM, oversized header lists (1.5x and 5x), HEADERS / CONTINUATION without END_HEADERS, DATA of 0 / 1 / 40 octets and padded, DATA / RST_STREAM on old streams, zero WINDOW_UPDATE on streams (library resets), WINDOW_UPDATE / PRIORITY floods, PING, SETTINGS; application accepting or not, reading, responding, dropping; writes open or blocked; reset memory never / at once expiring. Invariant in every state from the snapshot hook: stream records, buffered received events and queued frames within bounds computed from the configured limits plus what the application holds; connection Debug text bounded. Plus 21 attack loops (six of them with default-sized windows, where only the DATA-frame budget limits tiny / padded DATA) each run linearly for 3000 (quick) / 12000 (thorough) rounds: retained state after twice the rounds must not have grown"));
+    out.set("rule", json!("X2 on T2 (real server with tiny limits, hostile scripted peer): open, open+RST_STREAM, oversized header lists (1.5x and 5x), HEADERS / CONTINUATION without END_HEADERS, DATA of 0 / 1 / 40 octets and padded, DATA / RST_STREAM on old streams, zero WINDOW_UPDATE on streams (library resets), WINDOW_UPDATE / PRIORITY floods, PING, SETTINGS; application accepting or not, reading, responding, dropping; writes open or blocked; reset memory never / at once expiring. Invariant in every state from the snapshot hook: stream records, buffered received events and queued frames within bounds computed from the configured limits plus what the application holds; connection Debug text bounded. Plus 23 attack loops (six of them with default-sized windows, where only the DATA-frame budget limits tiny / padded DATA) each run linearly for 3000 (quick) / 12000 (thorough) rounds: retained state after twice the rounds must not have grown"));
     out.add_sample(json!({"harness": format!("x2.{}", m1.name), "depth": 3, "choices": [2, 2, 14]}));
     out.violations = vs.into_vec();
     out.guard_nonzero("streams refused", out.coverage.get("mechanism_counters").and_then(|m| m.get("streams_refused")).and_then(|v| v.as_u64()).unwrap_or(0));
